@@ -135,6 +135,10 @@ pub fn take_until_and_not<'a>(
                 (Some(offset), None) => {
                     Ok(i.take_split(index + offset)).map(|(rem, res)| (rem, res.into_inner()))
                 }
+                // the end tag comes first: a `however_tag` further on belongs to later input
+                (Some(offset), Some(however_offset)) if offset < however_offset => {
+                    Ok(i.take_split(index + offset)).map(|(rem, res)| (rem, res.into_inner()))
+                }
                 (Some(_), Some(offset)) => recursive_until(i, index + offset + 2, t1, t2),
             }
         }
